@@ -213,8 +213,10 @@ Print Assumptions C11_spec_decides.
 
 (* ---- the controller in front of the store (createSecretHandlers, work queue, syncSecret) ----
    crun cinit h   a cluster-level history h (object created/updated, deleted, worker drains the
-                  queue, a resource looks a Secret up) run through the model of handlers + queue +
-                  syncSecret: final informer store / queue, and the store-level history it amounts to
+                  queue, a resource looks a Secret up, the start-up step preSyncSecrets, a namespace
+                  loses / gets the watch label) run through the model of handlers + queue + syncSecret +
+                  preSyncSecrets + cleanupUnwatchedNamespacedResources; c_seen is what the informer caches
+                  hold (the cluster's objects of the watched namespaces): final informer store / queue, and the store-level history it amounts to
                   (compile h).  chist_ok: ValidateSecret rejects unsupported types, an update keeps
                   the type.  All theorems above apply to [compile h]; these connect them to the cluster. *)
 
@@ -224,7 +226,7 @@ Print Assumptions C11_spec_decides.
 Theorem C11_controller_agrees :
   forall (h : list cev) (k : string),
     chist_ok cinit h -> in_pendb k (c_pend (fst (crun cinit h))) = false ->
-    agree1 (c_objs (fst (crun cinit h)) k) (cur (compile h) k).
+    agree1 (c_seen (fst (crun cinit h)) k) (cur (compile h) k).
 Proof. exact controller_agrees. Qed.
 Print Assumptions C11_controller_agrees.
 
@@ -236,7 +238,7 @@ Theorem C11_controller_file_is_current :
       chist_ok cinit h -> hist_ok cadel U gempty (compile h) -> U k ->
       in_pendb k (c_pend (fst (crun cinit h))) = false ->
       In f (names_of_key k) -> lookup f (files (run cadel (compile h))) = Some c ->
-      exists v, c_objs (fst (crun cinit h)) k = Some v /\ vvalid v = true /\
+      exists v, c_seen (fst (crun cinit h)) k = Some v /\ vvalid v = true /\
                 assoc f (derived (key_to_fname k) v) = Some c.
 Proof. exact controller_file_is_current. Qed.
 Print Assumptions C11_controller_file_is_current.
@@ -249,7 +251,7 @@ Theorem C11_controller_gone_means_removed :
     forall (h : list cev) (k : string),
       chist_ok cinit h -> hist_ok cadel U gempty (compile h) -> U k ->
       in_pendb k (c_pend (fst (crun cinit h))) = false ->
-      dead (c_objs (fst (crun cinit h)) k) ->
+      dead (c_seen (fst (crun cinit h)) k) ->
       forall f, In f (names_of_key k) -> lookup f (files (run cadel (compile h))) = None.
 Proof. exact controller_gone_means_removed. Qed.
 Print Assumptions C11_controller_gone_means_removed.
@@ -259,9 +261,46 @@ Theorem C11_controller_get_reports_error :
   forall (cadel : bool) (h : list cev) (k : string) (st' : state) (p : string) (e : bool),
     chist_ok cinit h -> in_pendb k (c_pend (fst (crun cinit h))) = false ->
     step cadel (run cadel (compile h)) (Get k) = (st', Some (p, e)) ->
-    e = deadb (c_objs (fst (crun cinit h)) k).
+    e = deadb (c_seen (fst (crun cinit h)) k).
 Proof. exact controller_get_reports_error. Qed.
 Print Assumptions C11_controller_get_reports_error.
+
+(* what an informer cache holds is an object of the cluster *)
+Theorem C11_controller_cache_is_cluster :
+  forall (h : list cev) (k : string) (v : ver),
+    chist_ok cinit h -> c_seen (fst (crun cinit h)) k = Some v -> c_api (fst (crun cinit h)) k = Some v.
+Proof. exact seen_is_cluster_object. Qed.
+Print Assumptions C11_controller_cache_is_cluster.
+
+(* "only if some resource has asked for it": a store history without any lookup leaves the
+   secrets directory empty ... *)
+Theorem C11_no_lookup_no_files :
+  forall (cadel : bool) (U : string -> Prop) (h : list op),
+    hist_ok cadel U gempty h -> forallb (fun o => negb (is_lookup o)) h = true ->
+    files (run cadel h) = [].
+Proof. exact no_lookup_no_files. Qed.
+Print Assumptions C11_no_lookup_no_files.
+
+(* ... so whatever the cluster holds (valid, invalid, supported, unsupported Secrets, watched or
+   not) and whatever events, worker runs, start-up steps (preSyncSecrets) and namespace changes
+   happen: nothing is in the secrets directory as long as no resource has looked a Secret up *)
+Theorem C11_controller_writes_nothing_unasked :
+  forall (cadel : bool) (U : string -> Prop) (h : list cev),
+    hist_ok cadel U gempty (compile h) -> forallb (fun e => negb (is_cget e)) h = true ->
+    files (run cadel (compile h)) = [].
+Proof. exact controller_writes_nothing_unasked. Qed.
+Print Assumptions C11_controller_writes_nothing_unasked.
+
+(* REFUTED across a process restart (finding F10): the store starts empty over the surviving
+   directory and nothing sweeps it -- the file of a Secret deleted while the process was down stays *)
+Theorem C11_restart_leftover_refuted :
+  let st0 := run false [Upsert "default" "x" vA; Get "default/x"]%string in
+  let c1 := crestart (mkc (fun _ => None) (fun _ => None) [] [("default", "x")]%string []) in
+  let st1 := fold_left (step_st false) (snd (cstep c1 CStart)) (restart_state st0) in
+  c_seen c1 "default/x"%string = None /\ store st1 = [] /\
+  files st1 = [("default-x", (mode_rw_only, "A"))]%string.
+Proof. exact restart_leftover_refuted. Qed.
+Print Assumptions C11_restart_leftover_refuted.
 
 (* The hypotheses are satisfiable by a non-trivial history: three Secrets (TLS updated after
    being materialised; JWK referenced by an Ingress while invalid, then made valid; CA), ending
@@ -284,3 +323,12 @@ Example C11_example_recreated_unsupported :
   files (run false (compile ch_recreated)) = [] /\
   snd (step false (run false (compile ch_recreated)) (Get "default/x"%string)) = Some (""%string, true).
 Proof. exact ch_recreated_ok. Qed.
+
+(* start-up over a cluster with an unreferenced valid TLS Secret, a referenced one, an invalid one
+   and an Opaque one: preSyncSecrets writes nothing; the first lookup writes exactly that file *)
+Example C11_example_startup :
+  chist_ok cinit ch_startup /\
+  compile ch_startup = [Upsert "team" "s1" vB; Upsert "default" "x" vA; Upsert "default" "s2" vAbad]%string /\
+  files (run false (compile ch_startup)) = [] /\
+  files (run false (compile (ch_startup ++ [CGet "default/x"%string]))) = [("default-x", (mode_rw_only, "A"))]%string.
+Proof. exact ch_startup_ok. Qed.
